@@ -31,8 +31,8 @@ func checkC06(r *core.Run) {
 	if mp != nil {
 		an.Instrs(mp, func(i ssa.Instruction) {
 			if ret, ok := i.(*ssa.Return); ok && len(ret.Results) == 1 {
-				if bo, ok := ret.Results[0].(*ssa.BinOp); ok && bo.Op == token.GTR {
-					okStrict = true
+				if bo, ok := ret.Results[0].(*ssa.BinOp); ok && (bo.Op == token.GTR || bo.Op == token.LSS) {
+					okStrict = true // "a > b" or the same written "b < a": which side is which is checked below
 				}
 			}
 		})
@@ -91,9 +91,13 @@ func checkC06(r *core.Run) {
 		}
 		an.Instrs(mp, func(i ssa.Instruction) {
 			if ret, ok := i.(*ssa.Return); ok && len(ret.Results) == 1 {
-				if bo, ok := ret.Results[0].(*ssa.BinOp); ok && bo.Op == token.GTR {
-					mark(bo.X, 0)
-					mark(bo.Y, 1)
+				if bo, ok := ret.Results[0].(*ssa.BinOp); ok && (bo.Op == token.GTR || bo.Op == token.LSS) {
+					hi, lo := bo.X, bo.Y
+					if bo.Op == token.LSS {
+						hi, lo = lo, hi
+					}
+					mark(hi, 0) // the side that has to have MORE work is the receiver's
+					mark(lo, 1)
 				}
 			}
 		})
